@@ -126,6 +126,7 @@ type Exec struct {
 	curClause  *Clause
 	specs      map[string]*specInfo
 	conSig     *types.Signature
+	globalInit map[string]bool
 }
 
 type inlineFrame struct {
@@ -256,16 +257,16 @@ func (x *Exec) needStr() {
 	so := c.App("str_of", a, o, n)
 	c.AddAxiom("str_of", c.Forall([]*Term{a, o, n}, c.Implies(x.idxLe(zero, n), c.Eq(c.App("str_len", so), n)), []*Term{so}))
 	i := c.Bound("i", idx)
-	c.AddAxiom("str_of", c.Forall([]*Term{a, o, n, i}, c.Implies(c.And(x.idxLe(zero, i), x.idxLt(i, n)),
+	c.AddAxiom("str_of+str_bytes", c.Forall([]*Term{a, o, n, i}, c.Implies(c.And(x.idxLe(zero, i), x.idxLt(i, n)),
 		c.Eq(c.Select(c.App("str_bytes", so), i), c.Select(a, x.idxAdd(o, i)))), []*Term{c.Select(c.App("str_bytes", so), i)}))
 	// str_of(str_bytes(s), 0, len(s)) == s
-	c.AddAxiom("str_bytes", c.Forall([]*Term{s}, c.Eq(c.App("str_of", c.App("str_bytes", s), zero, c.App("str_len", s)), s), []*Term{c.App("str_bytes", s)}))
+	c.AddAxiom("str_bytes+str_of", c.Forall([]*Term{s}, c.Eq(c.App("str_of", c.App("str_bytes", s), zero, c.App("str_len", s)), s), []*Term{c.App("str_bytes", s)}))
 	// str_sub
 	lo := c.Bound("lo", idx)
 	hi := c.Bound("hi", idx)
 	sub := c.App("str_sub", s, lo, hi)
 	c.AddAxiom("str_sub", c.Forall([]*Term{s, lo, hi}, c.Implies(c.And(x.idxLe(zero, lo), x.idxLe(lo, hi)), c.Eq(c.App("str_len", sub), x.idxSub(hi, lo))), []*Term{sub}))
-	c.AddAxiom("str_sub", c.Forall([]*Term{s, lo, hi, i}, c.Implies(c.And(x.idxLe(zero, i), x.idxLt(i, x.idxSub(hi, lo))),
+	c.AddAxiom("str_sub+str_bytes", c.Forall([]*Term{s, lo, hi, i}, c.Implies(c.And(x.idxLe(zero, i), x.idxLt(i, x.idxSub(hi, lo))),
 		c.Eq(c.Select(c.App("str_bytes", sub), i), c.Select(c.App("str_bytes", s), x.idxAdd(lo, i)))), []*Term{c.Select(c.App("str_bytes", sub), i)}))
 	// str_lt irreflexive + total on distinct (enough for sorted-order reasoning with transitivity)
 	t1 := c.Bound("t1", SStr)
@@ -603,7 +604,7 @@ func (x *Exec) allocRef(st *State, what string) *Term {
 	c := x.c
 	r := c.Fresh("new_"+what, SInt)
 	al := x.heapGet(st, "alloc", SArr(SInt, SBool))
-	x.assumeGlobal(st, c.And(c.Gt(r, c.Int(embN)), c.Eq(c.Mod(r, c.Int(embN)), c.Int(0)), c.Not(c.Select(al, r))))
+	x.assumeGlobal(st, c.And(c.Gt(r, c.Int(embN*embN)), c.Eq(c.Mod(r, c.Int(embN)), c.Int(0)), c.Not(c.Select(al, r))))
 	x.heapSet(st, "alloc", c.Store(al, r, c.True()))
 	return r
 }
